@@ -337,6 +337,41 @@ def run(repo='/repo', tier='quick'):
             res.check(not resets, 'C07.e', 'limit-counter:%s:loop-carried' % v['name'], '%s is initialised before the token loop and only incremented inside it' % v['name'],
                       'the counter %s that is compared with the layer limit is (re)initialised inside the token loop: it never exceeds the limit and every coding token gets its own decompressor' % v['name'], (resets[0].get('loc') if resets else cnd[0]['loc']))
     res.floor('C07.e', 'limit counters in the token loop', ncnt, 1)
+    # ---------------- C07.j the request side: one layer, only when enabled
+    res.rule('C07.j', 'request bodies: a request decompressor is created only under cfg->request_decompression_enabled, outside any loop (one layer), for the coding just read from the header, after a left-over decompressor was destroyed; the compressed arms of the request body dispatch hand the data to it and shut it down at end of body')
+    qf = db.get('htp_tx_process_request_headers')
+    qc = qf.calls('htp_gzip_decompressor_create')
+    res.floor('C07.j', 'request decompressor creations', len(qc), 1)
+    qloops = C.loops(qf)
+    for b, i, c in qc:
+        facts = [a for a, e in P.facts_at(qf, b)]
+        en = any(a[0].endswith('request_decompression_enabled') and a[1] == '!=' and a[2] == '0' for a in facts)
+        inloop = any(b in body for h, body in qloops)
+        coding = P.K(c['args'][1]) == 'tx->request_content_encoding' and any(a[0] == 'tx->request_content_encoding' and a[1] == '!=' and a[2] == 'HTP_COMPRESSION_NONE' for a in facts)
+        res.check(en and not inloop and coding, 'C07.j', 'htp_tx_process_request_headers:create', 'under request_decompression_enabled, once, for the coding read from the header',
+                  'the request decompressor is created %s' % ('without cfg->request_decompression_enabled being tested' if not en else 'inside a loop (more than one layer)' if inloop else 'for a coding other than the one just recognised'), c['loc'])
+        # a left-over decompressor is destroyed first: on every path to the creation either the slot is NULL or the destroy call was made
+        okd = True
+        for atoms, events, end, seq in P.enum_paths_seq(qf, (qf.entry, -1), stop=lambda bb, ii, st, b=b, i=i: (bb, ii) == (b, i), must_reach=b):
+            if end[0] != 'stop':
+                continue
+            f2 = [a for a, bb in atoms]
+            destroyed = any(x[0] == 'stmt' and any(cc.get('callee') == 'htp_tx_req_destroy_decompressors' for cc in nodes(x[3], lambda y: y.get('k') == 'call')) for x in seq)
+            if not destroyed and ('tx->connp->req_decompressor', '==', '0') not in f2:
+                okd = False
+        res.check(okd, 'C07.j', 'htp_tx_process_request_headers:left-over-destroyed', 'a left-over decompressor is destroyed (or known absent) before the new one is stored',
+                  'a new request decompressor overwrites tx->connp->req_decompressor on a path that neither destroyed the old one nor knows there is none (one decompressor with its 8 KiB buffer and zlib state leaks per request)', c['loc'])
+    pf = db.get('htp_tx_req_process_body_data_ex')
+    dec = pf.calls('htp_gzip_decompressor_decompress')
+    res.floor('C07.j', 'request-side decompress calls', len(dec), 1)
+    for b, i, c in dec:
+        shut = False
+        for atoms, events, end, seq in P.enum_paths_seq(pf, (b, i)):
+            f2 = [a for a, bb in atoms]
+            if ('data', '==', '0') in f2:
+                shut = shut or any(x[0] == 'stmt' and any(cc.get('callee') == 'htp_tx_req_destroy_decompressors' for cc in nodes(x[3], lambda y: y.get('k') == 'call')) for x in seq)
+        res.check(shut and P.K(c['args'][0]) == 'tx->connp->req_decompressor', 'C07.j', 'htp_tx_req_process_body_data_ex:feed-and-shut-down', 'compressed request data goes to the request decompressor, which is shut down at end of body',
+                  'the request body dispatch does not hand the data to tx->connp->req_decompressor, or does not shut it down when data == NULL', c['loc'])
     # ---------------- C07.h the time budget is charged with the elapsed time, not more
     res.rule('C07.h', 'time accounting: on every successful path of htp_timer_track the budget grows by 1000000 * (after.sec - before.sec) + (after.usec - before.usec) as a linear form (on the same-second arm the first term vanishes by the arm\'s guard); an over-charge switches a healthy decompressor to pass-through')
     tf = db.get('htp_timer_track')
